@@ -106,6 +106,7 @@ type FnTrans struct {
 	contractErrors []string
 	assumpTerms []string
 	knownRefs map[string]bool
+	siteRanks map[*SiteSpec]map[ssa.Instruction]int
 	constArrs map[string]string
 	globalsUsed map[string]bool
 }
@@ -1094,6 +1095,15 @@ func (t *FnTrans) Translate() {
 	// parameters
 	entry := t.newEpochState()
 	t.entry0 = entry
+	// ghost components exist from the start (so that havocs can preserve them)
+	var gnames []string
+	for g := range t.W.ghosts {
+		gnames = append(gnames, g)
+	}
+	sort.Strings(gnames)
+	for _, g := range gnames {
+		t.heapGet(entry, "G."+g, arraySort("Int", t.mode.scalarSort(t.W.ghostType(g))))
+	}
 	for _, p := range fn.Params {
 		v := t.havocParam(p)
 		t.vals[p] = v
@@ -1329,4 +1339,20 @@ func (t *FnTrans) havocLoopState(st *HeapState, li *loopInfo) *HeapState {
 // havocAll: everything may have changed.
 func (t *FnTrans) havocAll(st *HeapState) *HeapState {
 	return t.newEpochState()
+}
+
+// havocAllKeepGhost: unknown (contract-less) code cannot touch ghost state.
+func (t *FnTrans) havocAllKeepGhost(st *HeapState) *HeapState {
+	ns := t.newEpochState()
+	var ks []string
+	for c := range t.compSorts {
+		if strings.HasPrefix(c, "G.") {
+			ks = append(ks, c)
+		}
+	}
+	sort.Strings(ks)
+	for _, c := range ks {
+		ns.cur[c] = t.heapGet(st, c, t.compSorts[c])
+	}
+	return ns
 }
